@@ -16,7 +16,7 @@ import time
 from vlib import common as K
 from corpus import base, cfg as C, gram as G
 from corpus.base import terms, A
-from corpus.gram import Grammar, NT
+from corpus.gram import Grammar, NT, Err
 
 PID = "C03"
 
@@ -44,6 +44,12 @@ def suspects():
     # reduce/reduce whose colliding lookahead reaches the two reductions from two different states (outer follow vs inner first)
     gs.append((Grammar("lr2_outer", terms("p z x"), [NT("S", [A("A", "x")], pub=True), NT("A", [A("p", "C"), A("p", "B", "D")]), NT("B", [A("z")]), NT("C", [A("z")]), NT("D", [A("x")])]), "not_lr1"))
     gs.append((Grammar("lr2_outer3", terms("p q z x y"), [NT("S", [A("A", "x"), A("q", "A", "y")], pub=True), NT("A", [A("p", "C"), A("p", "B", "D")]), NT("B", [A("z")]), NT("C", [A("z")]), NT("D", [A("x")]), ]), "not_lr1"))
+    # conflicts whose lookahead / shifted symbol is the error terminal `!` (read as a terminal, C16): shift `!` vs reduce on `!`,
+    # reduce/reduce on `!`, and an unambiguous LR(2) shape with `!` as the colliding lookahead
+    gs.append((Grammar("amb_err_sr", terms("a b"), [NT("S", [A("P"), A("Q", Err())], pub=True), NT("P", [A("a", Err())]), NT("Q", [A("a")])]), "ambiguous"))
+    gs.append((Grammar("amb_err_rr", terms("a b"), [NT("S", [A("P", Err()), A("Q", Err(), "b"), A("Q", Err())], pub=True), NT("P", [A("a")]), NT("Q", [A("a")])]), "ambiguous"))
+    gs.append((Grammar("amb_err_deep", terms("a b ;"), [NT("S", [A("L", ";")], pub=True), NT("L", [A("I"), A("L", "I")]), NT("I", [A("a"), A("b", Err()), A("R", Err())]), NT("R", [A("b")])]), "ambiguous"))
+    gs.append((Grammar("lr2_err", terms("a x y"), [NT("S", [A("P", Err(), "x"), A("Q", Err(), "y")], pub=True), NT("P", [A("a")]), NT("Q", [A("a")])]), "not_lr1"))
     gs.append((Grammar("lr2_b", terms("x y z"), [NT("S", [A("P", "x", "y"), A("Q", "x", "z")], pub=True), NT("P", [A("z"), A("P", "z")]), NT("Q", [A("z"), A("Q", "z")])]), "not_lr1"))
     return gs
 
@@ -142,6 +148,7 @@ def harness_text(g, n):
     syms, rules, order = binarise(red, start)
     ix = {s: i for i, s in enumerate(syms)}
     kind = {t.name: i for i, t in enumerate(g.terms)}
+    kind[G.ERROR_TERM] = len(g.terms)      # the error terminal `!` is one more token kind of the specification grammar
     termarms = []
     body = []
     for s in order:
@@ -158,7 +165,7 @@ def harness_text(g, n):
         lines.append("                  c[%d][i][l] = acc; }" % ix[s])
         body.append("\n".join(lines))
     return (COUNT_HARNESS.replace("@NAME@", g.name).replace("@N@", str(n)).replace("@NS@", str(len(syms)))
-            .replace("@TERMS@", " ".join(termarms)).replace("@UNWIND@", str(n + 3)).replace("@NK@", str(len(g.terms)))
+            .replace("@TERMS@", " ".join(termarms)).replace("@UNWIND@", str(n + 3)).replace("@NK@", str(len(g.terms) + 1))
             .replace("@BODY@", "\n".join(body)).replace("@START@", str(ix[start])))
 
 
